@@ -113,11 +113,24 @@ func makeKeys(rng *prng.R, p *pool, ims []*imageSpec, unknown int, noImage bool)
 		i := rng.Intn(len(ims))
 		im := ims[i]
 		switch rng.Intn(3) {
-		case 0: // the TOC digest of a layer that belongs to the pool but not to this image
+		case 0: // the TOC digest of a layer that this image does not have: preferably one that
+			// another tag of the same repository has, else any other layer of the pool
 			var cand []*layerSpec
-			for _, l := range p.esgz {
-				if im.find(l.built.TOCDigest) == nil {
-					cand = append(cand, l)
+			for _, o := range ims {
+				if o != im && o.repo == im.repo {
+					for _, l := range o.layers {
+						if l.esgz && im.find(l.built.TOCDigest) == nil {
+							cand = append(cand, l)
+						}
+					}
+				}
+			}
+			if len(cand) == 0 || rng.Chance(1, 3) {
+				cand = nil
+				for _, l := range p.esgz {
+					if im.find(l.built.TOCDigest) == nil {
+						cand = append(cand, l)
+					}
 				}
 			}
 			if len(cand) > 0 {
@@ -161,7 +174,7 @@ func randomCfg(rng *prng.R) worldCfg {
 	return worldCfg{noPrefetch: rng.Bool(), noBackgroundFetch: !rng.Chance(1, 4), chunk: int64(rng.Pick(300, 1024, 50000)), dirCache: rng.Chance(1, 3)}
 }
 
-const nScenarios = 9
+const nScenarios = 10
 const nDirected = 2 * nScenarios
 
 // genSeqCase is a pure function of (seed, tier, idx).
@@ -182,12 +195,12 @@ func genCase(r *vf.Run, p *pool, stream uint64, idx, scenario, variant int, tagP
 	}
 	c.wc = randomCfg(rng)
 	c.ims = composeImages(rng, p, rng.Range(2, 3), 4, tag)
-	c.keys = makeKeys(rng, p, c.ims, rng.Range(1, 2), rng.Chance(1, 6))
+	c.keys = makeKeys(rng, p, c.ims, rng.Range(2, 3), rng.Chance(1, 6))
 	var hot, all []int
 	for _, k := range c.keys {
 		all = append(all, k.id)
-		if k.imgNo == 0 {
-			hot = append(hot, k.id)
+		if k.imgNo == 0 || k.img.repo == c.ims[0].repo {
+			hot = append(hot, k.id) // the first image and every other reference into its repository
 		}
 	}
 	shadow := map[int]int{}
@@ -296,6 +309,29 @@ func directedCase(c *seqCase, rng *prng.R, p *pool, tag string, scenario, varian
 	case 7:
 		c.directed = "held-layer-survives-cache-expiry-and-partial-release"
 		c.ops = []op{o(opUse, A), o(opUse, A), o(opDiff, A), {kind: opExpire}, o(opRelease, A), {kind: opHoldRead}, o(opBlob, A), o(opRelease, A)}
+	case 9:
+		// three references into ONE repository: two tags with different layer sets ([A,B] and
+		// [B,C]) and a digest-pinned reference to the first
+		c.directed = "tags-of-one-repository-are-different-images"
+		va := &imageSpec{repo: "c16/app", tag: "v" + tag + "-a", published: true, layers: []*layerSpec{la, lb}}
+		vb := &imageSpec{repo: "c16/app", tag: "v" + tag + "-b", published: true, layers: []*layerSpec{lb, lc}}
+		pin := &imageSpec{repo: "c16/app", published: true, pinOf: va, layers: va.layers}
+		if la.built.ExternalTOC != nil || lb.built.ExternalTOC != nil {
+			pin = &imageSpec{repo: "c16/other", tag: "v" + tag, published: true, layers: []*layerSpec{ld}} // see composeImages
+		}
+		c.ims = []*imageSpec{va, vb, pin}
+		aA := &key{id: 0, img: va, imgNo: 0, dig: la.built.TOCDigest, spec: la, kind: "known"}
+		aB := &key{id: 1, img: va, imgNo: 0, dig: lb.built.TOCDigest, spec: lb, kind: "known"}
+		bB := &key{id: 2, img: vb, imgNo: 1, dig: lb.built.TOCDigest, spec: lb, kind: "known"}
+		bC := &key{id: 3, img: vb, imgNo: 1, dig: lc.built.TOCDigest, spec: lc, kind: "known"}
+		bA := &key{id: 4, img: vb, imgNo: 1, dig: la.built.TOCDigest, kind: "foreign-toc"}
+		aC := &key{id: 5, img: va, imgNo: 0, dig: lc.built.TOCDigest, kind: "foreign-toc"}
+		pl := pin.layers[0]
+		pA := &key{id: 6, img: pin, imgNo: 2, dig: pl.built.TOCDigest, spec: pl, kind: "known"}
+		pC := &key{id: 7, img: pin, imgNo: 2, dig: lc.built.TOCDigest, kind: "foreign-toc"}
+		c.keys = []*key{aA, aB, bB, bC, bA, aC, pA, pC}
+		c.ops = []op{o(opUse, aA), o(opDiff, aA), o(opDiff, bC), o(opDiff, bA), o(opInfo, bC), o(opDiff, bB), o(opDiff, aC), o(opDiff, pA), o(opDiff, pC),
+			o(opRelease, aA), o(opUse, bC), o(opDiff, bC), o(opDiff, aB), o(opBlob, bA), o(opRelease, bC), o(opDiff, aA)}
 	default:
 		c.directed = "images-are-independent"
 		c.ops = []op{o(opUse, A), o(opDiff, A), o(opUse, C), o(opDiff, C), o(opRelease, A), {kind: opExpire}, {kind: opHoldRead}, o(opDiff, C), o(opDiff, A), o(opRelease, C)}
